@@ -25,6 +25,9 @@ type CEvent struct {
 	Tag    uint64 `json:"tag,omitempty"`
 	Peer   int    `json:"peer,omitempty"`
 	Fail   bool   `json:"fail,omitempty"`
+	// RefTag (resp only, fixed witnesses): answer under the id the target received
+	// for the request carrying this tag; resolved to ID when the script runs
+	RefTag uint64 `json:"ref_tag,omitempty"`
 }
 
 type CMsg struct {
@@ -47,7 +50,7 @@ type CObs struct {
 	Deliv   []CDeliv    `json:"deliv"`
 	NewID   uint64      `json:"new_id"`
 	Pending []uint64    `json:"pending"`
-	Fwd     [][2]uint64 `json:"fwd"`
+	Fwd     [][3]uint64 `json:"fwd"` // (our id, source peer, requester's id)
 	Next    uint64      `json:"next"`
 	Note    string      `json:"note,omitempty"`
 }
@@ -186,9 +189,10 @@ func (c *ControlRunner) Step(ev CEvent) CObs {
 	c.collect(&o)
 	pending, fids, fpeers, next := c.n.A.VerifControlState()
 	o.Pending = append([]uint64{}, pending...)
-	o.Fwd = [][2]uint64{}
+	o.Fwd = [][3]uint64{}
+	orig := c.n.A.VerifForwardedOrigIDs(fids)
 	for i := range fids {
-		o.Fwd = append(o.Fwd, [2]uint64{fids[i], uint64(PNum(fpeers[i]))})
+		o.Fwd = append(o.Fwd, [3]uint64{fids[i], uint64(PNum(fpeers[i])), orig[i]})
 	}
 	o.Next = next
 	return o
@@ -290,7 +294,7 @@ func CoqCObs(o CObs) string {
 	}
 	fw := make([]string, len(o.Fwd))
 	for i, f := range o.Fwd {
-		fw[i] = fmt.Sprintf("(%s, %s)", vh.CoqN(f[0]), vh.CoqN(f[1]))
+		fw[i] = fmt.Sprintf("(%s, (%s, %s))", vh.CoqN(f[0]), vh.CoqN(f[1]), vh.CoqN(f[2]))
 	}
 	return fmt.Sprintf("mkcobs %s %s %s %s %s %s", vh.CoqList(out), vh.CoqList(dl), vh.CoqN(o.NewID), vh.CoqList(pd), vh.CoqList(fw), vh.CoqN(o.Next))
 }
